@@ -207,6 +207,11 @@ func failOne(c *Ctx, src string, class, wrap string, host bool, noOpt bool, args
 		viol("C06:followup-differs:"+class, fmt.Sprintf("after the failing run the same VM ran the known script wrongly: got %s want %s", short(got), short(knownWant)))
 	}
 	if host {
+		// the model does not run host callbacks: check delivery directly for the simplest placement
+		if wrap == "try-catch" && pv == nil && !strings.HasPrefix(impl, "out=val i0000000000000002\t") &&
+			!strings.HasPrefix(impl, "out=val i0000000000000001\t") {
+			viol("C06:not-delivered:"+class, "a failure raised by a Go callback inside try { … } catch e { return 2 } was not delivered to the catch: "+short(impl))
+		}
 		return "", impl, tr.steps
 	}
 	l, ok := vmLine("R", 600000, bc, ugo.Map{}, args)
@@ -218,14 +223,13 @@ func failOne(c *Ctx, src string, class, wrap string, host bool, noOpt bool, args
 
 func init() {
 	var err error
-	knownBc, err = ugo.Compile([]byte(knownScript), ugo.CompilerOptions{})
+	// (no optimizer: it would run the VM under test at compile time)
+	knownBc, err = ugo.Compile([]byte(knownScript), ugo.CompilerOptions{NoOptimize: true})
 	if err != nil {
 		panic(err)
 	}
+	// (a tree on which even this fails is caught by the model comparison; do not crash the harness)
 	knownWant = knownRun(ugo.NewVM(knownBc))
-	if !strings.HasPrefix(knownWant, "val ") {
-		panic("known script does not run: " + knownWant)
-	}
 	register(&Stream{
 		Name: "vmfail",
 		Skip: vmSkip,
